@@ -302,6 +302,28 @@ def c03_streams(rng, tier, budget):
         r = st.rt(h)
         st.obs_all(r, C03_OBS)
     yield "corpus", st
+    # every normalisation that can be applied twice: explicit default ports × scheme changes, case folding, IDNA, dot segments,
+    # each followed by re-parsing the string form (the port is the component that goes stale when a cache is carried over)
+    st2 = Stream()
+    defaults = {"http": 80, "https": 443, "ws": 80, "wss": 443, "ftp": 21}
+    for sc in ("http", "https", "ftp", "x"):
+        for ui in ("", "u@", "u:p@"):
+            for host in ("example.com", "EXAMPLE.com", "[::1]", "bücher.example", "1.2.3.4"):
+                for pt in ("", ":80", ":443", ":21", ":0", ":8080"):
+                    h = st2.new(sc + "://" + ui + host + pt + "/a/../b")
+                    st2.obs_all(h, ["str", "port", "explicit_port"])
+                    st2.obs_all(st2.rt(h), ["str", "port", "explicit_port"])
+                    for sc2 in ("http", "https", "ftp", "x"):
+                        if sc2 == sc:
+                            continue
+                        m = st2.mod(h, "with_scheme", enc(sc2))
+                        st2.obs_all(m, C03_OBS)
+                        st2.obs_all(st2.rt(m), C03_OBS)
+                        if pt in (":80", ":443"):
+                            m2 = st2.mod(m, "with_scheme", enc(sc))
+                            st2.obs_all(m2, ["str", "port", "explicit_port"])
+                            st2.obs_all(st2.rt(m2), ["str", "port", "explicit_port"])
+    yield "default-port-scheme-matrix", st2
 
 
 register(Prop("C03", c03_streams, compare=obs_filter(C03_OBS), oracle=c03_oracle,
@@ -411,6 +433,16 @@ def c04_streams(rng, tier, budget):
         e = pct_utf8(c)
         for t in ("http://h/a%sb", "http://h/?a%sb", "http://h/#a%sb", "http://a%sb@h/"):
             st.obs_all(st.new(t % e), ["str"])
+    # every canonical host shape, including registered names that LOOK like IPvFuture / IPv4 / hex groups, in every authority context
+    hosts = [h for h in urlgen.REGNAMES if h == h.lower() and "%" not in h] + urlgen.IPV4 + ["[::1]", "[2001:db8::1]", "[fe80::1%eth0]", "[::ffff:102:304]"]
+    for h in hosts:
+        for sc in ("http", "ws", "x-y"):
+            for ui in ("", "u@", "u:p@"):
+                for pt in ("", ":8080", ":0"):
+                    for tail in ("/", "/p%20q?a=b#f", ""):
+                        if tail == "" and (ui or pt):
+                            continue
+                        st.obs_all(st.new(sc + "://" + ui + h + pt + (tail or "/")), ["str"])
     for _ in range(n):
         st.obs_all(st.new(canon_url(rng)), ["str"])
     yield "canonical-grammar", st
@@ -605,6 +637,29 @@ def c06_streams(rng, tier, budget):
     n = int((200 if tier == "quick" else 3000) * budget)
     yield "urls", general_stream(rng, n, C06_OBS, enc_frac=0.3, with_join=False,
                                  mods=["with_user", "with_password", "with_fragment", "with_name", "with_path", "with_query", "truediv", "joinpath", "with_suffix"])
+    # alias-then-clean: a decoded value supplied in a form that canonicalises to the SAME raw text (lone surrogates are dropped,
+    # pre-encoded text is kept) is supplied first, through every route; then the clean text is supplied and must read back unchanged,
+    # whatever objects the internal caches share between the two
+    st = Stream()
+    texts = ["section", "a b", "é", "x.y", "k"]
+    for t in texts:
+        dirty = [t[:1] + "\udc80" + t[1:], t + "\ud800", "\udfff" + t]
+        for d in dirty + [t]:
+            st.obs_all(st.build(scheme="http", host="h", path="/p", fragment=d), C06_OBS)
+            st.obs_all(st.build(scheme="http", host="h", path="/p", user=d), C06_OBS)
+            st.obs_all(st.build(scheme="http", host="h", path="/p", user="u", password=d), C06_OBS)
+            st.obs_all(st.build(scheme="http", host="h", path="/" + d), C06_OBS)
+            st.obs_all(st.build(scheme="http", host="h", path="/p", query_string="k=" + d), C06_OBS)
+            base = st.new("http://h/p")
+            st.obs_all(st.mod(base, "with_fragment", enc(d)), C06_OBS)
+            st.obs_all(st.mod(base, "with_user", enc(d)), C06_OBS)
+            st.obs_all(st.mod(st.new("http://u@h/p"), "with_password", enc(d)), C06_OBS)
+            st.obs_all(st.mod(base, "with_path", enc("/" + d), "F", "F", "F"), C06_OBS)
+            st.obs_all(st.mod(base, "with_name", enc(d), "F", "F"), C06_OBS)
+            st.obs_all(st.mod(base, "truediv", enc(d)), C06_OBS)
+            st.obs_all(st.mod(base, "with_query", "S" + enc("k=" + d)), C06_OBS)
+            st.obs_all(st.mod(base, "with_query", "M" + enc("k") + "=s" + enc(d)), C06_OBS)
+    yield "alias-then-clean", st
 
 
 register(Prop("C06", c06_streams, compare=obs_filter(C06_OBS), oracle=c06_oracle,
